@@ -69,6 +69,30 @@ theorem inline_counter_hint (g : Graph) (lib : Library) (K : String) (h : Inv g 
   refine ⟨?_, (inline_backlinks_exact g lib K h).1, (inline_backlinks_exact g lib K h).2⟩
   simp only [Hints.refsCounterHints, List.length_map, gt_iff_lt]
 
+/-- **the `‹n›` hint does not depend on how the library got into its state**: two graphs that stand for the same
+library — one freshly imported, one reached by any history of edits — show the same inline counter for every note
+(the reference sets may hold different node ids; their places are the same set) -/
+theorem inline_counter_history_independent (g₁ g₂ : Graph) (lib : Library) (K : String)
+    (h₁ : Inv g₁ lib) (h₂ : Inv g₂ lib) :
+    Hints.refsCounterHints g₁ K = Hints.refsCounterHints g₂ K := by
+  obtain ⟨e₁, m₁, n₁⟩ := inline_counter_hint g₁ lib K h₁
+  obtain ⟨e₂, m₂, n₂⟩ := inline_counter_hint g₂ lib K h₂
+  have hperm : ((g₁.inlineReferencesTo K).map g₁.place).Perm ((g₂.inlineReferencesTo K).map g₂.place) :=
+    (List.perm_ext_iff_of_nodup n₁ n₂).2 (fun p => (m₁ p).trans (m₂ p).symm)
+  rw [e₁, e₂, hperm.length_eq]
+
+/-- the same for the number behind `⎘`: how often a note is included does not depend on the edit history -/
+theorem block_reference_count_history_independent (g₁ g₂ : Graph) (lib : Library) (K : String)
+    (h₁ : Inv g₁ lib) (h₂ : Inv g₂ lib) :
+    Hints.numberSubstr (g₁.blockReferencesTo K).length = Hints.numberSubstr (g₂.blockReferencesTo K).length := by
+  obtain ⟨m₁, n₁⟩ := block_backlinks_exact g₁ lib K h₁
+  obtain ⟨m₂, n₂⟩ := block_backlinks_exact g₂ lib K h₂
+  have hperm : ((g₁.blockReferencesTo K).map g₁.place).Perm ((g₂.blockReferencesTo K).map g₂.place) :=
+    (List.perm_ext_iff_of_nodup n₁ n₂).2 (fun p => (m₁ p).trans (m₂ p).symm)
+  have := hperm.length_eq
+  simp only [List.length_map] at this
+  rw [this]
+
 /-- **every `⎘` hint belongs to a block reference of the note and counts the inclusions of its target**: the
 hints are, in document order, one per live reference node of the note that has a line range, on that node's
 first line, with the number of live block references to the same target anywhere in the library -/
